@@ -131,6 +131,25 @@ def p2(prog, ctx):
         for node in ast.walk(c):
             if isinstance(node, ast.Subscript) and dotted(node.value) in lists and not isinstance(node.slice, (ast.Constant, ast.Slice)):
                 indexed.add(dotted(node.value))
+        # the two tables are each other's inverse only as long as neither changes after construction
+        frozen = set(indexed) | {D for D, _X, _l in tables if indexed}
+        for mname, mf in sorted(meths.items()):
+            if mname == "__init__":
+                continue
+            for node in walk_no_nested(mf):
+                hit = None
+                if isinstance(node, ast.Call) and isinstance(node.func, ast.Attribute) and dotted(node.func.value) in frozen \
+                        and node.func.attr in ("append", "remove", "insert", "pop", "sort", "reverse", "extend", "clear", "update", "setdefault", "popitem"):
+                    hit = node
+                elif isinstance(node, (ast.Assign, ast.AugAssign, ast.Delete)):
+                    tg = node.targets if isinstance(node, (ast.Assign, ast.Delete)) else [node.target]
+                    if any(dotted(t) in frozen or (isinstance(t, ast.Subscript) and dotted(t.value) in frozen) for t in tg):
+                        hit = node
+                if hit is not None:
+                    n += 1
+                    ctx.fail("P2", hit, "%s.%s" % (c.name, mname), src(hit)[:80], "%s changes a group table after the counter was constructed: the "
+                             "name->number table and the number->name list are inverse to each other only as built in __init__, so counts "
+                             "stored under a number are printed under another group's name afterwards" % src(hit)[:50])
         for D, X, loop in tables:
             n += 1
             if not indexed:
@@ -176,8 +195,12 @@ def p2(prog, ctx):
         else:
             ctx.ok("P2", "%s:%d" % (LRC, loop.lineno), "group table starts empty and is filled by plain enumeration")
     if n == 0:
-        ctx.fail("P2", init, init._qualname, "group_numeric_ids", "the name->number table of the grouped counter is no longer built by "
-                 "plain enumeration of the ordered group list")
+        if any(isinstance(x, ast.Attribute) and x.attr == "group_numeric_ids" and isinstance(x.ctx, ast.Store) for x in walk_no_nested(init)):
+            ctx.fail("P2", init, init._qualname, "group_numeric_ids", "the name->number table of the grouped counter is no longer built by "
+                     "plain enumeration of the ordered group list")
+        else:
+            ctx.undecided("P2", init, init._qualname, "the grouped counter has no name->number table any more (groups are represented in "
+                          "another way)")
         n = 1
     ctx.floor("P2", "enumerate-built index tables", n, 1)
 
@@ -187,6 +210,7 @@ def p3(prog, ctx):
     # path-wise: whatever group a count is added under is group_numeric_ids[K] with K = the default group when groups are ignored
     # and the read's own group otherwise (helpers of the class are inlined, local aliases substituted)
     n_inc = 0
+    mappings = {}
     for fname, own in (("add_read_info", r"^\w+\.read_group$"), ("add_read_info_raw", r"^group_id$")):
         f = prog.func_inlined(LRC, "AssignedFeatureCounter." + fname)
         bad = None
@@ -210,8 +234,17 @@ def p3(prog, ctx):
                     g = symexec.subst(c.args[0], env)
                     ok = False
                     why = src(g)
-                    if isinstance(g, ast.Subscript) and src(g.value) == "self.group_numeric_ids":
-                        k = g.slice
+                    # the name -> cell-key mapping applied to the group (table look-up, a method of a group registry, or none): it has
+                    # to be the same one at every increment; what is decided here is WHICH group is mapped
+                    if isinstance(g, ast.Subscript) and src(g.value).startswith("self."):
+                        mapping, k = src(g.value) + "[]", g.slice
+                    elif isinstance(g, ast.Call) and isinstance(g.func, ast.Attribute) and src(g.func).startswith("self.") and len(g.args) == 1 \
+                            and not g.keywords:
+                        mapping, k = src(g.func) + "()", g.args[0]
+                    else:
+                        mapping, k = "identity", g
+                    mappings.setdefault(mapping, c)
+                    if True:
                         alts = []
 
                         def leaves(e, cond):
@@ -247,28 +280,42 @@ def p3(prog, ctx):
                      "when groups are ignored and group_numeric_ids[the read's own group] otherwise" % bad[1], path=bad[2].describe()[:200])
         else:
             ctx.ok("P3", "%s:%d" % (LRC, f.lineno), "%s: every increment uses group_numeric_ids[default if ignore_read_groups else the read's group]" % fname)
+    if len(mappings) > 1:
+        c = list(mappings.values())[1]
+        ctx.fail("P3", c, "AssignedFeatureCounter", "group mappings %s" % sorted(mappings), "counts are added under differently mapped groups "
+                 "(%s): cells filled through one mapping are not the cells the other one (and the renderings) address" % ", ".join(sorted(mappings)))
     ctx.floor("P3", "increment sites checked path-wise", n_inc, 4)
     # matrix and linear renderings read the same table with the same name list
+    def writers(d):
+        def _arg_text(c):
+            a = c.args[0] if c.args else None
+            if isinstance(a, ast.Name):
+                ds = [st for st in walk_no_nested(d) if isinstance(st, ast.Assign) and len(st.targets) == 1 and isinstance(st.targets[0], ast.Name)
+                      and st.targets[0].id == a.id]
+                if len(ds) == 1:
+                    return src(ds[0].value)
+            return src(a) if a is not None else ""
+        lin = [c for c in walk_no_nested(d) if isinstance(c, ast.Call) and re.search(r"(^|\.)linear_output_file\w*\.write$", src(c.func))
+               and "%.2f" in _arg_text(c)]
+        from ..engine.dataflow import single_def_env
+        denv = single_def_env(d)
+        # matrix: some <counter>.get(self.group_numeric_ids[<name>]) whose counter is this feature's cell table
+        gets = [c for c in walk_no_nested(d) if isinstance(c, ast.Call) and isinstance(c.func, ast.Attribute) and c.func.attr == "get"
+                and c.args and re.match(r"^self\.group_numeric_ids\[\w+\]$", src(c.args[0]))]
+        return lin, gets, denv, _arg_text
     d = prog.func(LRC, "AssignedFeatureCounter.dump_grouped")
-    t = src(d)
-    def _arg_text(c):
-        a = c.args[0] if c.args else None
-        if isinstance(a, ast.Name):
-            ds = [st for st in walk_no_nested(d) if isinstance(st, ast.Assign) and len(st.targets) == 1 and isinstance(st.targets[0], ast.Name)
-                  and st.targets[0].id == a.id]
-            if len(ds) == 1:
-                return src(ds[0].value)
-        return src(a) if a is not None else ""
-    lin = [c for c in walk_no_nested(d) if isinstance(c, ast.Call) and src(c.func) == "linear_output_file.write" and "%.2f" in _arg_text(c)]
-    from ..engine.dataflow import single_def_env
-    denv = single_def_env(d)
-    # matrix: some <counter>.get(self.group_numeric_ids[<name>]) whose counter is this feature's cell table
-    gets = [c for c in walk_no_nested(d) if isinstance(c, ast.Call) and isinstance(c.func, ast.Attribute) and c.func.attr == "get"
-            and c.args and re.match(r"^self\.group_numeric_ids\[\w+\]$", src(c.args[0]))]
+    lin, gets, denv, _arg_text = writers(d)
     if len(lin) != 1 or not gets:
-        raise AnalysisError("dump_grouped: linear/matrix writers not found")
+        # the two renderings may live in helpers of their own
+        d = prog.func_inlined(LRC, "AssignedFeatureCounter.dump_grouped")
+        lin, gets, denv, _arg_text = writers(d)
+    if len(lin) != 1 or not gets:
+        ctx.undecided("P3", d, d._qualname, "linear / matrix writers of dump_grouped not found in the shape the rule understands")
+        return
     recv = src(symexec.subst(gets[0].func.value, denv))
-    if not re.search(r"self\.ordered_groups\[\w+\]", _arg_text(lin[0])) or recv != "self.feature_counter[feature_id]":
+    loop_vars = {x.id for l in walk_no_nested(d) if isinstance(l, ast.For) for x in ast.walk(l.target) if isinstance(x, ast.Name)}
+    mrecv = re.match(r"^self\.feature_counter\[(\w+)\]$", recv)
+    if not re.search(r"self\.ordered_groups\[\w+\]", _arg_text(lin[0])) or not mrecv or mrecv.group(1) not in loop_vars:
         ctx.fail("P3", lin[0], d._qualname, src(lin[0]), "linear rendering does not name groups through ordered_groups[numeric id], or the matrix "
                  "cells are not read from this feature's table through group_numeric_ids[name] (receiver %s)" % recv)
     else:
@@ -281,8 +328,17 @@ def p4(prog, ctx):
     for m, q, f in prog.all_functions():
         if m.rel != LRC:
             continue
-        flagged = [i for i in walk_no_nested(f) if isinstance(i, ast.If)
-                   and any(re.match(r"^self\.output_grouped_\w+$", src(a)) for a in flow.atoms(i.test))]
+        def flagged_blocks(fn):
+            return [i for i in walk_no_nested(fn) if isinstance(i, ast.If)
+                    and any(re.match(r"^self\.output_grouped_\w+$", src(a)) for a in flow.atoms(i.test))]
+        flagged = flagged_blocks(f)
+        if any(isinstance(sub, ast.Expr) and isinstance(sub.value, ast.Call) and (call_name(sub.value) or "").startswith("self.")
+               and (call_name(sub.value) or "").count(".") == 1 and (call_name(sub.value) or "").split(".")[1] in
+               {qq.rsplit(".", 1)[-1] for _m, qq, _f in prog.all_functions() if _m.rel == m.rel}
+               for i in flagged for st in i.body + i.orelse for sub in ast.walk(st)):
+            # a rendering delegated to a helper method: look at what the helper does
+            f = prog.func_inlined(m.rel, q)
+            flagged = flagged_blocks(f)
         for i in flagged:
             flag = [src(a) for a in flow.atoms(i.test) if re.match(r"^self\.output_grouped_\w+$", src(a))][0]
             for st in i.body + i.orelse:
@@ -295,6 +351,8 @@ def p4(prog, ctx):
                         continue
                     if isinstance(sub, (ast.If, ast.For, ast.Pass)):
                         continue
+                    if isinstance(sub, (ast.Continue, ast.Break)) and any(_within(l, i) for l in flow.enclosing_loops(sub)[-1:]):
+                        continue          # leaves / continues a loop that lies inside the flag's own block
                     def block_local(names):
                         """assigned inside this flag block and never read outside it"""
                         stored_in = {x.id for x in ast.walk(i) if isinstance(x, ast.Name) and isinstance(x.ctx, ast.Store)}
@@ -648,7 +706,52 @@ def p9(prog, ctx):
     ctx.floor("P9", "documented field x option arity cases", n, 12)
 
 
+def p10(prog, ctx):
+    """Every chromosome task gets a grouper of its own: the table grouper reads the chromosome's own split table, and every grouper
+    collects the groups seen by its task.  create_read_grouper returns, on every path, an object constructed in that very call."""
+    f = prog.func_inlined(RG, "create_read_grouper")
+    classes = {c.name for _m, _q, c in prog.all_classes()}
+    module_level = {t.id for st in prog.module(RG).tree.body if isinstance(st, (ast.Assign, ast.AnnAssign))
+                    for t in (st.targets if isinstance(st, ast.Assign) else [st.target]) if isinstance(t, ast.Name)}
+    n = 0
+    seen = set()
+    for pth in flow.paths(f):
+        if pth.exit != "return" or pth.exit_node is None or pth.exit_node.value is None:
+            continue
+        e = pth.exit_node.value
+        env = {}
+        for st in pth.stmts():
+            if isinstance(st, ast.Assign) and len(st.targets) == 1 and isinstance(st.targets[0], ast.Name):
+                env[st.targets[0].id] = st.value
+        hops = 0
+        while isinstance(e, ast.Name) and e.id in env and hops < 5:
+            e = env[e.id]
+            hops += 1
+        key = (pth.exit_node.lineno, src(e))
+        if key in seen:
+            continue
+        seen.add(key)
+        n += 1
+        if isinstance(e, ast.Call) and (call_name(e) or "").split(".")[-1] in classes:
+            ctx.ok("P10", "%s:%d" % (RG, pth.exit_node.lineno), "returns a fresh %s(...)" % call_name(e))
+            continue
+        roots = {x.id for x in ast.walk(e) if isinstance(x, ast.Name)}
+        if isinstance(e, (ast.Subscript, ast.Attribute, ast.Name)) and roots & module_level \
+                or (isinstance(e, ast.Call) and isinstance(e.func, ast.Attribute) and e.func.attr in ("get", "setdefault", "pop") and roots & module_level):
+            ctx.fail("P10", pth.exit_node, "create_read_grouper", "grouper from %s" % src(e)[:60],
+                     "the grouper handed to a chromosome task is taken from the module-level %s instead of being constructed for this call: "
+                     "a task gets the grouper (table, labels, observed groups) made for another chromosome or experiment, and its reads "
+                     "are looked up in the wrong table / reported under NA" % sorted(roots & module_level))
+        else:
+            ctx.undecided("P10", pth.exit_node, "create_read_grouper", "returned value %s is neither a constructor call nor taken from "
+                          "module-level state" % src(e)[:60])
+    ctx.floor("P10", "distinct returns of create_read_grouper", n, 5)
+
+
 def run(prog, ctx):
+    ctx.rule("P10", "every path of create_read_grouper returns the result of a grouper class's constructor called on that path (through "
+                    "locals), never an object kept in module-level state")
+    p10(prog, ctx)
     ctx.rule("P9", "the parser of `--read_group file:FILE:READ_COL:GROUP_COL:DELIM` (decision table over the documented arities) hands each "
                    "field, or its documented default, to the load_table parameter that plays the documented role (key column = read ids, "
                    "stored column = group ids, split delimiter, opened file)")
